@@ -9,6 +9,7 @@ and scope, and include the error behaviour and the final scope unless said other
 import TallyVerif.Lemmas.ExprUnfold
 import TallyVerif.Lemmas.AsciiCase
 import TallyVerif.Lemmas.Scope
+import TallyVerif.Lemmas.NameCase
 import TallyVerif.Model.Engine
 
 namespace TallyVerif.Props.C04
@@ -189,6 +190,56 @@ theorem name_case (o : Oracles) (ctx : Ctx) (id id' : String) (h : lowerName id 
 theorem attr_case (o : Oracles) (ctx : Ctx) (e : Expr) (a a' : String) (h : lowerName a = lowerName a') :
     eval o ctx (.attr e a) = eval o ctx (.attr e a') := by
   simp only [eval_attr, h]
+
+/-! ### names are case-insensitive: WHOLE expressions
+
+`Expr.mapNames f` (Model/ExprNames.lean) rewrites every identifier position of the tree — variable /
+primitive / data-source names, `txn` / `field` / row receivers, attribute names, function names (plain calls
+and calls consuming a generator), string-method names, comprehension binders, walrus targets — and
+nothing else.  Model and code lower-case an identifier at every one of these positions, at binding
+time as well as at lookup time, so no side condition on binders is needed.  What is NOT an identifier
+and stays case-sensitive (model and code agree, see the examples below): string constants, in
+particular the key of a `row["key"]` subscript; and the KEYS of the context (variables, data
+sources, captured fields, row columns) — they belong to the context, which the theorem keeps fixed. -/
+
+/-- CLAUSE "changing the letter case of function and variable names never changes the result", for
+whole expressions: renaming every identifier of `e` by any `f` that keeps each identifier's
+lower-cased spelling leaves the evaluation unchanged — same value, same error, same final scope —
+for every oracle family, context and starting scope. -/
+theorem mapNames_case (o : Oracles) (ctx : Ctx) (f : String → String) (hf : CasePreserving f) (e : Expr) (s : Scope) :
+    eval o ctx (e.mapNames f) s = eval o ctx e s := by
+  rw [eval_mapNames_aux o ctx f hf e]
+
+/-- … in particular for a top-level evaluation (fresh evaluator) -/
+theorem run_mapNames_case (o : Oracles) (ctx : Ctx) (f : String → String) (hf : CasePreserving f) (e : Expr) :
+    run o ctx (e.mapNames f) = run o ctx e := by
+  unfold run; rw [mapNames_case o ctx f hf]
+
+/-- The position-by-position form: two expressions that become THE SAME tree once every identifier
+is lower-cased (so each occurrence may be spelled in its own way: `Amount + AMOUNT`, a binder `X`
+used as `x`) evaluate identically. -/
+theorem same_lowered_names (o : Oracles) (ctx : Ctx) (e e' : Expr) (h : e.mapNames lowerName = e'.mapNames lowerName)
+    (s : Scope) : eval o ctx e s = eval o ctx e' s := by
+  rw [← mapNames_case o ctx lowerName casePreserving_lower e, ← mapNames_case o ctx lowerName casePreserving_lower e', h]
+
+/-- the same for the sub-evaluators the induction goes through: argument lists, `and`/`or` operand lists,
+`if` clauses, comparison chains, generator clauses (binders included) -/
+theorem mapNames_case_lists (o : Oracles) (ctx : Ctx) (f : String → String) (hf : CasePreserving f) :
+    (∀ es, evalArgs o ctx (mapNamesList f es) = evalArgs o ctx es) ∧
+    (∀ c es, evalLazyArgs o ctx c (mapNamesList f es) = evalLazyArgs o ctx c es) ∧
+    (∀ isAnd es, evalBool o ctx isAnd (mapNamesList f es) = evalBool o ctx isAnd es) ∧
+    (∀ es, evalConds o ctx (mapNamesList f es) = evalConds o ctx es) ∧
+    (∀ links left, evalLinks o ctx left (mapNamesLinks f links) = evalLinks o ctx left links) ∧
+    (∀ gens, evalGens o ctx (mapNamesComps f gens) = evalGens o ctx gens) :=
+  ⟨evalArgs_mapNames_aux o ctx f hf, evalLazyArgs_mapNames_aux o ctx f hf, evalBool_mapNames_aux o ctx f hf,
+   evalConds_mapNames_aux o ctx f hf, evalLinks_mapNames_aux o ctx f hf, evalGens_mapNames_aux o ctx f hf⟩
+
+/-- renamings that satisfy the hypothesis on EVERY string: upper-casing, lower-casing, and any
+per-identifier table of respellings -/
+example : CasePreserving String.toUpper ∧ CasePreserving lowerName ∧
+    CasePreserving (fun id => ([("x", "X"), ("rows", "Rows"), ("sum", "SuM"), ("a", "A")].lookup id).getD id) :=
+  ⟨casePreserving_upper, casePreserving_lower,
+   casePreserving_table _ (by decide +kernel)⟩     -- `tableOk`
 
 /-! ### dates -/
 
@@ -384,7 +435,66 @@ example : outcomeTag (run noOracle ctxEx (.cmp (.name "date") [.mk .ge (.const (
 open TallyVerif.Engine in
 example : outcomeTag (run noOracle ctxEx (.listcomp (.attrName "x" "a") [.mk (some "x") (.name "rows")
     [.cmp (.attrName "x" "a") [.mk .gt (.const (.int 2))]]])) = "ok list:?" := by decide +kernel
-example : SameUpToCase "Uber Eats" "UBER eats" := by unfold SameUpToCase; decide +kernel
+example : SameUpToCase "Uber Eats" "UBER eats" := by
+  unfold SameUpToCase      -- (the two computed strings are compared as character lists: 36 s → 0.1 s in the kernel)
+  exact ⟨by decide +kernel, by decide +kernel, String.toList_inj.mp (by decide +kernel)⟩
+
+/-- `sum(x.a for x in rows if x.a > 2) + (m := len(rows)) + m`, with a method call and `txn.` / `field.` access
+in the condition: every identifier position occurs -/
+def exNames : Expr :=
+  .binop .add (.binop .add
+    (.callNameGen "sum" (.attrName "x" "a") [.mk (some "x") (.name "rows")
+      [.cmp (.attrName "x" "a") [.mk .gt (.const (.int 2))],
+       .callAttr (.callAttr (.attrName "txn" "description") "lower" []) "startswith" [.const (.str "uber")],
+       .cmp (.attr (.subscript (.name "rows") (.const (.int 0))) "a") [.mk .eq (.const (.int 1))],
+       .callName "exists" [.attrName "field" "memo"]]] [])
+    (.walrus "m" (.callName "len" [.name "rows"])))
+    (.name "m")
+
+/-- the same expression with the binder written `X` but used as `x`, `SUM`, `Rows`, `.A`, `.LOWER()`, `TXN.Description`, `M := … m` -/
+def exNamesMixed : Expr :=
+  .binop .add (.binop .add
+    (.callNameGen "SUM" (.attrName "x" "A") [.mk (some "X") (.name "Rows")
+      [.cmp (.attrName "X" "a") [.mk .gt (.const (.int 2))],
+       .callAttr (.callAttr (.attrName "TXN" "Description") "LOWER" []) "StartsWith" [.const (.str "uber")],
+       .cmp (.attr (.subscript (.name "ROWS") (.const (.int 0))) "A") [.mk .eq (.const (.int 1))],
+       .callName "Exists" [.attrName "Field" "MEMO"]]] [])
+    (.walrus "M" (.callName "LEN" [.name "rOWS"])))
+    (.name "m")
+
+open TallyVerif.Engine in
+example : outcomeTag (run noOracle ctxEx exNames) = "ok int:11" ∧
+    outcomeTag (run noOracle ctxEx (exNames.mapNames String.toUpper)) = "ok int:11" := by decide +kernel
+/-- the hypothesis of `same_lowered_names` holds for the pair (string equalities are decided on character lists) … -/
+theorem exNames_same_lowered : exNamesMixed.mapNames lowerName = exNames.mapNames lowerName := by
+  simp [exNames, exNamesMixed, Expr.mapNames, mapNamesList, mapNamesComps, mapNamesLinks, lowerName, ← String.toList_inj]
+  decide +kernel
+/-- … so the mixed spelling evaluates like the plain one everywhere, and to 11 here (obtained from the theorem: the
+kernel needs 18 s to run the mixed tree itself, comparing the computed strings `lower("X")` and `lower("x")`) -/
+example (o : Oracles) (ctx : Ctx) (s : Scope) : eval o ctx exNamesMixed s = eval o ctx exNames s :=
+  same_lowered_names o ctx _ _ exNames_same_lowered s
+open TallyVerif.Engine in
+example : outcomeTag (run noOracle ctxEx exNamesMixed) = "ok int:11" := by
+  have h : run noOracle ctxEx exNamesMixed = run noOracle ctxEx exNames := by
+    unfold run; rw [same_lowered_names noOracle ctxEx _ _ exNames_same_lowered]
+  rw [h]; decide +kernel
+
+/-- NOT identifiers, and case-SENSITIVE in model and code alike: the string key of a subscript
+(`rows[0]["a"]` is 1, `rows[0]["A"]` is an "Index error" ExpressionError; as an attribute both `.a`
+and `.A` give 1) … -/
+example :
+    Engine.outcomeTag (run noOracle ctxEx (.subscript (.subscript (.name "rows") (.const (.int 0))) (.const (.str "a")))) = "ok int:1" ∧
+    Engine.outcomeTag (run noOracle ctxEx (.subscript (.subscript (.name "rows") (.const (.int 0))) (.const (.str "A")))) = "ExpressionError" ∧
+    Engine.outcomeTag (run noOracle ctxEx (.attr (.subscript (.name "ROWS") (.const (.int 0))) "A")) = "ok int:1" := by decide +kernel
+/-- … and the keys of the context: a variable stored under the key `R` (the rule loader never does
+that: it stores lower-cased names) is found under NO spelling, because every spelling is looked up
+as `r`; a row column `A` is reached by no attribute spelling.  The renaming theorem is unaffected
+(both spellings fail alike). -/
+example :
+    Engine.outcomeTag (run noOracle { ctxEx with variables := [("R", .int 5)] } (.name "R")) = "ExpressionError" ∧
+    Engine.outcomeTag (run noOracle { ctxEx with variables := [("R", .int 5)] } (.name "r")) = "ExpressionError" ∧
+    Engine.outcomeTag (run noOracle { ctxEx with sources := [("rows", .list [.row [("A", .int 1)]])] }
+      (.attr (.subscript (.name "rows") (.const (.int 0))) "A")) = "ExpressionError" := by decide +kernel
 
 /-- OBSERVATION (recorded, DESIGN.md §6 C04-obs): a generator abandoned by `any()` leaves its binder
 bound, so a top-level variable of the same name is shadowed afterwards.  With a variable `r = 5`:
